@@ -11,7 +11,7 @@ TEXT = {
  "C03": ("good_run / C03_resync: for every dialect program (absolute or relative, mm or inch), whenever no episode is open the printer's X/Y/Z position, offsets, modes and units equal the unfiltered file's; exit_zorder: the XY travel of the exit sequence happens at max(previous Z, target Z), raise before, lowering after.", D),
  "C04": ("C04_coordinate (no episode open => printer's E axis equals the file's), C04_amount / C04_amount_arc (an extruding command handled outside regions is reached at the file's E coordinate, retraction depth and firmware flag, so it pushes the file's amount), C04_suppressed / _arc (a command that is not forwarded pushes no filament), over the invariant EInv (sys_step_einv) for every program of the protocol.",
          "Protocol (EStep.EDialect): absolute extrusion, moves never retract, E-only retract/recover cycles of one length A or G10/G11, not mixed, E-only extrusions allowed while not retracted, G92 E anywhere; plus the X/Y/Z dialect. " + D),
- "C05": ("C05_depth (virt.depth <= phys.depth, phys.depth in {0, A} resp. 0 with firmware parity), C05_never_deeper (phys.depth <= max of the file's depth so far), C05_recovered_first (an extruding command is reached at the file's depth: the owed recovery is issued exactly once before it), C05_firmware_params; admissibility lemmas show the protocol is inhabited.",
+ "C05": ("C05_depth (virt.depth <= phys.depth, phys.depth in {0, A} resp. 0 with firmware parity), C05_never_deeper (phys.depth <= max of the file's depth so far), C05_recovered_first (an extruding command is reached at the file's depth: the owed recovery is issued exactly once before it), C05_firmware_params; retractParams_spec / render_fw (exact evaluation of the regenerated GCODE_PARAMS_REGEX: a synthesised G10/G11 is the code followed by exactly the parameters of the retraction it stands for, for every spelling of the code word); admissibility lemmas show the protocol is inhabited.",
          "Same protocol as C04. " + D),
  "C09": ("handleGcode_ok / C09_total: on every well-formed (homed) state and for every event sequence the exception-aware model returns .ok of the total model, stays well-formed and returns None / ignore / a non-empty list; C18.parse_total closes the text entry point (the line regex matches at every offset); C09_run_outputs / C09_run_strings: along every event sequence every forwarded command string (original, replacement, deferred, script, @-command output) is non-empty when the commands handed in and the script lines are.",
          "Float-only failures (inf/nan, rounding making a sqrt argument negative) are outside the field model and are covered only by the arc/filter correspondence suites."),
